@@ -45,3 +45,124 @@ package container
 //@   loop 2 invariant [offset-table] forall k int :: 0 <= k && k <= rangeindex ==> le32(out, 32+4*k) == (32 + 4*len(c.parts) + prefix(k)) % 4294967296
 //@   loop 2 invariant [part-size-fields] forall k int :: 0 <= k && k <= rangeindex ==> le32(out, 32 + 4*len(c.parts) + prefix(k) + 4) == len(c.parts[k].data) % 4294967296
 //@   loop 2 invariant [part-fourcc] forall k int :: 0 <= k && k <= rangeindex ==> le32(out, 32 + 4*len(c.parts) + prefix(k)) == int(c.parts[k].fourCC)
+//
+// ---- PSV0 dependency-table sizing ------------------------------------------------
+//
+// One mask dword per up-to-8 vectors: ceil(vectors/8).
+//
+//@ func psvComputeMaskDwordsFromVectors
+//@   mode bv
+//@   tags C18
+//@   requires [small] vectors <= 0xFFFFFFF0
+//@   ensures [ceil] result == (vectors + 7) / 8
+//@   ensures [ceil-lo] result * 8 >= vectors
+//@   ensures [ceil-hi] result * 8 < vectors + 8
+//@   pure
+//@   nopanic
+//
+//@ func psvComputeInputOutputTableDwords
+//@   mode bv
+//@   tags C18
+//@   requires [small] out <= 0xFFFFFFF0
+//@   ensures [def] result == ((out + 7) / 8) * in * 4
+//@   pure
+//@   nopanic
+//
+// ---- retail hash (INF-0004 modified MD5) ------------------------------------------
+//
+// Block preparation. The caller walks the n = (len+pad+8)/64 blocks of the
+// padded message; every block before the end state is 64 bytes of data; the
+// final block(s) carry the data tail, the 0x80 marker, zeros, and the two
+// length words x[0] = len<<3, x[15] = 1|len<<1. The padding amount is fixed by
+// len mod 64: one padding row when that is < 56, two rows otherwise.
+//
+//@ pred md5pad(byteCount, padAmount, twoRowsPadding) := (!twoRowsPadding ==> (byteCount & 63) < 56 && padAmount == 56 - (byteCount & 63)) && (twoRowsPadding ==> (byteCount & 63) >= 56 && padAmount == 120 - (byteCount & 63))
+//
+//@ func retailMD5Block
+//@   mode bv
+//@   tags C18 C10
+//@   requires [len] int(byteCount) == len(data) && byteCount < 0xFFFFFF00
+//@   requires [pad] md5pad(byteCount, padAmount, twoRowsPadding)
+//@   requires [n] n == (byteCount + padAmount + 8) >> 6 && i < n && offset == 64 * i
+//@   requires [end-state] nextEndState != nil && *nextEndState == ite(twoRowsPadding && i <= n - 2, n - 2, n - 1)
+//@   ensures [block] len(result) == 16
+//@   ensures [end-state] *nextEndState == ite(twoRowsPadding && i < n - 2, n - 2, n - 1)
+//@   assigns *nextEndState, HA_uint32
+//@   nopanic
+//
+//@ func retailMD5
+//@   mode bv
+//@   tags C18 C10
+//@   requires [len] len(data) < 0xFFFFFF00
+//@   at retailMD5Block assert [pad-layout] md5pad(arg1, arg7, arg6) && arg4 == (arg1 + arg7 + 8) >> 6 && int(arg1) == len(data)
+//@   nopanic
+//@   terminates
+//@   loop 1 invariant [walk] i <= n && offset == 64 * i && nextEndState == ite(twoRowsPadding && i <= n - 2, n - 2, n - 1)
+//@   loop 1 decreases n - i
+//
+//@ func bytesToUint32LE
+//@   mode bv
+//@   tags C18 C10
+//@   requires [len] len(b) >= 4
+//@   ensures [le] result == uint32(b[0]) | uint32(b[1])<<8 | uint32(b[2])<<16 | uint32(b[3])<<24
+//@   pure
+//@   nopanic
+//
+//@ func bytesToUint32s
+//@   mode bv
+//@   tags C18 C10
+//@   ensures [len] len(result) == len(data) / 4
+//@   pure
+//@   nopanic
+//@   terminates
+//@   loop 1 invariant [idx] 0 <= i && i <= n && n == len(data) / 4 && len(result) == n
+//@   loop 1 decreases n - i
+//
+//@ func uint32sToBytes
+//@   mode bv
+//@   tags C18 C10
+//@   ensures [len] len(result) == len(u) * 4
+//@   ensures [fresh] fresh(result)
+//@   pure
+//@   nopanic
+//@   terminates
+//@   loop 1 invariant [len] len(buf) == len(u) * 4
+//
+//@ func copyBytesToUint32s
+//@   mode bv
+//@   tags C18 C10
+//@   requires [fits] int(byteOff) + len(src) <= len(dst) * 4 && len(dst) <= 64
+//@   assigns HA_uint32
+//@   nopanic
+//@   terminates
+//@   loop 1 invariant [len] len(buf) == len(dst) * 4
+//
+//@ func padIntoUint32s
+//@   mode bv
+//@   tags C18 C10
+//@   requires [small] len(dst) <= 64 && byteOff <= 1024 && padLen <= 1024
+//@   assigns HA_uint32
+//@   nopanic
+//@   terminates
+//@   loop 1 invariant [len] len(buf) == len(dst) * 4
+//@   loop 1 decreases 64 - i
+//@   loop 2 invariant [len] len(buf) == len(dst) * 4
+//
+//@ func padIntoUint32sFromOffset
+//@   mode bv
+//@   tags C18 C10
+//@   requires [small] len(dst) <= 64 && byteOff <= 1024 && padOffset <= 64
+//@   assigns HA_uint32
+//@   nopanic
+//@   terminates
+//@   loop 1 invariant [len] len(buf) == len(dst) * 4 && remaining == 64 - padOffset
+//@   loop 1 decreases remaining - i
+//@   loop 2 invariant [len] len(buf) == len(dst) * 4
+//
+//@ func md5Transform
+//@   mode bv
+//@   tags C18 C10
+//@   requires [state] state != nil
+//@   requires [block] len(pX) >= 16
+//@   assigns HA_uint32
+//@   nopanic
